@@ -324,20 +324,31 @@ func dischargeEach(obls []*Obligation, dir string, timeoutS, seed, workers int) 
 	var afterGround []job
 	skipSubsets := map[*Obligation]bool{}
 	type gjob struct {
-		j    job
-		file string
+		j     job
+		files []string
 	}
 	var gjobs []gjob
 	for _, j := range hard {
-		as, goal, ok := groundQuery(j.o)
-		if !ok || j.o.Kind == "cover" || j.o.Kind == "canary" {
+		if j.o.Kind == "cover" || j.o.Kind == "canary" {
 			afterGround = append(afterGround, j)
 			continue
 		}
-		q := BuildQuery(as, goal, false, nil)
-		f := strings.TrimSuffix(j.file, ".smt2") + ".ground.smt2"
-		os.WriteFile(f, []byte(fmt.Sprintf("; ground-instantiated reduced query for %s\n", j.o.Name)+q), 0o644)
-		gjobs = append(gjobs, gjob{j, f})
+		var files []string
+		for lvl, narrow := range []bool{true, false} {
+			as, goal, ok := groundQuery(j.o, narrow)
+			if !ok {
+				continue
+			}
+			q := BuildQuery(as, goal, false, nil)
+			f := strings.TrimSuffix(j.file, ".smt2") + fmt.Sprintf(".ground%d.smt2", lvl)
+			os.WriteFile(f, []byte(fmt.Sprintf("; ground-instantiated reduced query (level %d) for %s\n", lvl, j.o.Name)+q), 0o644)
+			files = append(files, f)
+		}
+		if len(files) == 0 {
+			afterGround = append(afterGround, j)
+			continue
+		}
+		gjobs = append(gjobs, gjob{j, files})
 	}
 	for _, g := range gjobs {
 		wg.Add(1)
@@ -345,15 +356,20 @@ func dischargeEach(obls []*Obligation, dir string, timeoutS, seed, workers int) 
 		go func(g gjob) {
 			defer wg.Done()
 			defer func() { <-sem }()
-			r := solveQuery(g.file, 15, seed, false)
-			if r.status == "unsat" {
-				g.j.o.Status = "unsat"
-				g.j.o.Solver = r.solver
+			var r solveResult
+			for _, f := range g.files {
+				r = solveQuery(f, 15, seed, false)
+				if r.status == "unsat" {
+					g.j.o.Status = "unsat"
+					g.j.o.Solver = r.solver
+					g.j.o.Time += r.secs
+					g.j.o.Query = f
+					g.j.o.Notes = append(g.j.o.Notes, "discharged by ground instantiation of the quantified assumptions")
+					return
+				}
 				g.j.o.Time += r.secs
-				g.j.o.Query = g.file
-				g.j.o.Notes = append(g.j.o.Notes, "discharged by ground instantiation of the quantified assumptions")
-				return
 			}
+			r.secs = 0
 			g.j.o.Time += r.secs
 			mu.Lock()
 			if r.status == "sat" {
